@@ -148,3 +148,8 @@ contract(f"{B}::Node.apply_timestep", props=["C12"],
          modifies=TICK_MOD + NIC_MOD + SW_MOD + ["NetworkInterface.pcap", "self.operating_state", "self.config.start_up_countdown", "self.config.shut_down_countdown",
                                                    "self.config.is_resetting", "self.node_scan_countdown", "self.red_scan_countdown"],
          allocates=True, loops=LOOPS, budget_s=900, split=9)
+
+# ---- "while a node is not ON ... every request to it other than start-up is refused": every route of a node's own request manager is gated
+from pyvc.contracts import scan  # noqa: E402
+from pyvc import scans as _scans  # noqa: E402
+scan("C12", "node-routes-gated", lambda: _scans.node_routes_gated({}))
